@@ -3,7 +3,7 @@
 //   simcam_vs <config>
 // config:  seed N | strategy ... | pct_depth D | starve T K | spurious K | budget N
 //          kind 0|1|2 | trig 0|1 (software frame trigger enabled by the initial set)
-//          ctl OP...   OP = start | stop | trigger | settrig 0|1 | yield K | waitidle | waitframes N
+//          ctl OP...   OP = start | stop | trigger | settrig 0|1 | setshape W H T | yield K | waitidle | waitframes N
 //          caller N    (the caller thread makes up to N get_frame calls per run, then idles until the next run)
 //          out FILE
 // Events carry a sequence number taken at the call's linearization point (last release of the camera lock inside the call,
@@ -19,6 +19,8 @@
 #include <string.h>
 #include <unistd.h>
 
+#define BUF_CAP (64u * 64u * 4u)
+#define SENT(i) ((uint8_t)(((i) * 7u + 3u) & 0xffu))
 static struct Camera* cam;
 static struct CameraProperties props;
 static size_t img_bytes;
@@ -109,7 +111,8 @@ caller(void* arg)
 {
     (void)arg;
     int me = vs_self();
-    uint8_t* buf = (uint8_t*)malloc(img_bytes + 64);
+    // (large enough for every shape a `setshape` op may configure; filled with a position-dependent sentinel before each call)
+    uint8_t* buf = (uint8_t*)malloc(BUF_CAP + 64);
     int seen_run = 0;
     for (;;) {
         while (!finished && (run_no == seen_run || !running))
@@ -122,7 +125,9 @@ caller(void* arg)
             struct ImageInfo info;
             memset(&info, 0, sizeof info);
             info.hardware_frame_id = (uint64_t)-7; // sentinel: the camera did not fill it in
-            size_t nb = img_bytes;
+            size_t nb = BUF_CAP;
+            for (size_t i = 0; i < BUF_CAP + 64; i++)
+                buf[i] = SENT(i);
             caller_in_call = 1;
             cur_seq[me] = ++gseq;
             snprintf(b, sizeof b, "{\"e\":\"GetFrameCall\",\"t\":%d}", me);
@@ -132,7 +137,22 @@ caller(void* arg)
             long hw = (long)(int64_t)info.hardware_frame_id;
             if (hw > 1000000000L || hw < -1000000000L)
                 hw = -9;
-            snprintf(b, sizeof b, "{\"e\":\"GetFrameRet\",\"rc\":%d,\"nbytes\":%ld,\"hw\":%ld,\"t\":%d}", rc, (long)nb, hw, me);
+            // C17 on a camera that is re-configured while a frame call is pending: the bytes delivered are those of the
+            // shape reported with the frame, nothing is written past them, and the image is filled to its end
+            long expb = (rc == 0 && nb > 0) ? (long)bytes_of_image(&info.shape) : (long)nb;
+            int past = 0, filled = 1;
+            if (rc == 0 && nb > 0 && (size_t)expb <= BUF_CAP) { // (*nbytes is the caller's capacity, the camera does not change it)
+                for (size_t i = (size_t)expb; i < BUF_CAP + 64 && !past; i++)
+                    past = buf[i] != SENT(i);
+                if ((size_t)expb <= BUF_CAP && expb >= 8) {
+                    int same = 1;
+                    for (size_t i = (size_t)expb - 8; i < (size_t)expb; i++)
+                        same = same && buf[i] == SENT(i);
+                    filled = !same;
+                }
+            }
+            snprintf(b, sizeof b, "{\"e\":\"GetFrameRet\",\"rc\":%d,\"nbytes\":%ld,\"hw\":%ld,\"t\":%d,\"exp\":%ld,\"past\":%s,\"filled\":%s}", rc,
+                     (long)nb, hw, me, expb, past ? "true" : "false", filled ? "true" : "false");
             emit(cur_seq[me], b);
             if (rc == 0 && nb > 0)
                 frames_got++;
@@ -185,6 +205,19 @@ controller(void)
             cur_seq[me] = ++gseq;
             snprintf(b, sizeof b, "{\"e\":\"SetTrigCall\",\"b\":%s}", v ? "true" : "false");
             emit(cur_seq[me], b); // from here on the setting is in flux (disabling fires the trigger before it takes effect)
+            cur_seq[me] = ++gseq;
+            int rc = cam->set(cam, &props);
+            snprintf(b, sizeof b, "{\"e\":\"SetTrig\",\"b\":%s,\"rc\":%d}", v ? "true" : "false", rc);
+            emit(cur_seq[me], b);
+        } else if (!strcmp(op, "setshape")) {
+            // setshape W H T: re-configure shape and sample type (the trigger setting stays as it is), possibly while running
+            props.shape.x = (uint32_t)atoi(ctl[++i]);
+            props.shape.y = (uint32_t)atoi(ctl[++i]);
+            props.pixel_type = (enum SampleType)atoi(ctl[++i]);
+            int v = props.input_triggers.frame_start.enable;
+            cur_seq[me] = ++gseq;
+            snprintf(b, sizeof b, "{\"e\":\"SetTrigCall\",\"b\":%s}", v ? "true" : "false");
+            emit(cur_seq[me], b);
             cur_seq[me] = ++gseq;
             int rc = cam->set(cam, &props);
             snprintf(b, sizeof b, "{\"e\":\"SetTrig\",\"b\":%s,\"rc\":%d}", v ? "true" : "false", rc);
